@@ -11,3 +11,6 @@ reg("C32", "exploration", "runtime monitor: differential execution TPL scanner v
 reg("C33", "exploration", "runtime monitor over an exhaustively enumerated finite space: every token value of both token tables scanned in 4 contexts, String/Len/Precedence/IsOperator asserted",
     "The token space is finite and enumerated completely (exhaustive=true): every operator/keyword spelling is scanned by the real scanners and must come back as exactly that token.",
     "The harness's spelling tables restate the documented spellings; tokens added later are picked up through String().")
+reg("C13", "exploration", "runtime monitor: panic/fatal capture in crash-isolated workers + logical step-budget hook (build tag verif) + error-order and Bad-node invariants over token soup, hostile bytes, deep nesting and corpus mutants in 11 mode combinations and 5 entry points",
+    "Every generated input is parsed by the real parser through ParseFile/class mode/ParseExpr/ParseExprFrom/ParseFSDir; a panic or runtime fatal error is attributed to the journalled case; hangs are decided by a step counter hooked into next0/error/advance/parseStmt/parseOperand, never by wall clock.",
+    "Nesting depth is bounded (2*10^3 quick, 2*10^4 thorough); a loop that never reaches a hooked function would only trip the wall-clock watchdog (inconclusive).")
